@@ -204,9 +204,12 @@ func (m *Manager) AddBinding(mac net.HardwareAddr, ipv4 net.IP) error {
 
 	macKey := macToUint64(mac)
 
-	binding := SubscriberBinding{
-		Mode: uint8(m.mode),
+	// Start from the existing entry so an IPv6 binding added earlier survives
+	var binding SubscriberBinding
+	if m.bindings != nil {
+		m.bindings.Lookup(&macKey, &binding)
 	}
+	binding.Mode = uint8(m.mode)
 
 	if ipv4 != nil {
 		ip4 := ipv4.To4()
